@@ -231,6 +231,8 @@ def run(prop, tier):
         # partial compactions at the splice points the implementation's own policy chooses, with child collections
         import check_coll
         check_coll.run_into(rep, "C07", tier)
+    # direction B: every footer swap of every store these replays opened, against TraceStore.tla
+    vlib.validate_replay_store_traces(rep, work, prop)
     rep.assumptions += [
         "TLC and the CommunityModules Json module",
         "content is abstract in MossStore (batch numbers); key-level semantics of persisted segments is decided by the store-backed MossColl replays",
